@@ -13,12 +13,12 @@ import (
 	_ "mltwist/internal/consoleui/verifsim/loadsim"
 	_ "mltwist/internal/consoleui/verifsim/memsim"
 	_ "mltwist/internal/consoleui/verifsim/movesim"
-	_ "mltwist/internal/consoleui/verifsim/uisim"
+	"mltwist/internal/consoleui/verifsim/uisim"
 )
 
 func main() {
 	if len(os.Args) < 2 {
-		fmt.Fprintln(os.Stderr, "usage: vsim run|worker|shrink|replay|one|hashes ...")
+		fmt.Fprintln(os.Stderr, "usage: vsim run|worker|shrink|replay|one|hashes|transcript ...")
 		os.Exit(2)
 	}
 	cmd := os.Args[1]
@@ -83,6 +83,12 @@ func main() {
 		os.Exit(core.One(opt, *idx, *verbose))
 	case "hashes":
 		os.Exit(core.Hashes(opt, *from, *to))
+	case "transcript":
+		n := *runs
+		if n <= 0 {
+			n = 300
+		}
+		os.Exit(uisim.Transcript(seed, n))
 	default:
 		fmt.Fprintln(os.Stderr, "unknown command", cmd)
 		os.Exit(2)
